@@ -43,7 +43,22 @@ Input dimensions (every document is validated from the Document and from Section
     Properties, copies made by the library through a link};
   * deep chains (9 levels) and wide rows (12 siblings) with the violation at the first / middle / last place and
     at all places at once;
-  * random mixtures that are replicated / linked / cleaned afterwards.
+  * random mixtures that are replicated / linked / cleaned afterwards;
+  * near-collisions (gen_near_collisions): DIFFERENT keys that coincide as soon as a rule builds or compares its key in
+    any other way than on the exact texts - for every rule that compares or groups objects (unique name/type, unique
+    Property names, unique ids, name equal to id, dependency lookup, dependency value lookup, value counts):
+    (A+sep+B, C) next to (A, B+sep+C) for 53 separators / format fragments (parts may be empty = missing name / type);
+    single texts A, B, A+sep+B, B+sep+A, A+sep, sep+A, sep (parts, prefixes, path syntax into a sub-Section) as
+    Property names, dependencies, dependency values, target values, ids and names; texts differing in letter case,
+    outer blanks or Unicode composition only; swapped (name, type); None next to 'None'; names that are almost the id
+    or the id of another object; each with and without a real duplicate / missing target mixed in; plus every
+    violation of the rule table at every place of a document made of such near-collisions only, and the nine
+    replications of these documents.
+A duplicate issue on an object that shares its key with nobody is classified by the closest different key in scope
+(near_miss()): what a wrongly built key would have merged.
+Not covered here: Section types / names that are not texts (lists, numbers), other spellings of one UUID (upper case,
+urn:, braces) as name or id, the empty text as dependency / dependency_value, names with separators as link targets
+(the link syntax cannot express them), terminology look-ups (no rule of the statement uses them).
 A prescribed issue that is missing in a run but reported when the object itself is validated is classified by the
 situation of the object (private link fields, equal-content object that did get the issue), see lost_situation().
 """
@@ -57,6 +72,7 @@ import re
 import shutil
 import tempfile
 import traceback
+import unicodedata
 
 from rcc import harness as h
 
@@ -185,6 +201,25 @@ def card_label(card, count):
     return 'count-within-bounds'
 
 
+def dep_near(dep, par):
+    """Suffix for the label of a dependency that names no Property of the Section: what it almost names."""
+    if not isinstance(dep, str):
+        return ''
+    names = [q._name for q in _props(par) if isinstance(q._name, str) and q._name]
+    if any(_normal(n) == _normal(dep) for n in names):
+        return '/property-name-equal-only-after-case/blank/unicode-normalisation'
+    if any(_squash(n) == _squash(dep) != '' for n in names):
+        return '/property-name-equal-only-without-separator-characters'
+    for sub in _secs(par):
+        if isinstance(sub._name, str) and sub._name and dep.startswith(sub._name) and \
+                any(isinstance(q._name, str) and q._name and dep.endswith(q._name) and
+                    len(dep) <= len(sub._name) + len(q._name) + 4 for q in _props(sub)):
+            return '/reads-as-path-to-a-property-of-a-subsection'
+    if any(n in dep or dep in n for n in names):
+        return '/property-name-contains-it-or-is-contained'
+    return ''
+
+
 def dep_eval(prop):
     """-> (verdict, label); verdict True = warning expected, False = none expected, None = don't care."""
     dep = prop._dependency
@@ -196,7 +231,7 @@ def dep_eval(prop):
     cands = [q for q in _props(par) if q._name == dep]
     subsec = any(s._name == dep for s in _secs(par))
     if not cands:
-        return True, 'names-subsection-only' if subsec else 'names-nothing'
+        return True, ('names-subsection-only' if subsec else 'names-nothing') + dep_near(dep, par)
     label = 'names-existing-property' + ('-and-subsection' if subsec else '')
     if all(q is prop for q in cands):
         return None, label + '/itself'
@@ -212,6 +247,8 @@ def dep_eval(prop):
         vlabel = 'value-is-later'
     elif not all(isinstance(v, str) for v in tgt):
         vlabel = 'value-absent-target-nonstring'
+    elif isinstance(dv, str) and len(tgt) > 1 and _squash(dv) == _squash(*tgt):
+        vlabel = 'value-absent-but-equal-to-the-joined-values'
     elif isinstance(dv, str) and dv in tgt[0]:
         vlabel = 'value-absent-but-substring-of-first'
     else:
@@ -249,10 +286,25 @@ def expect(root):
         elif verdict:
             ex.fixed[(id(o), kind)] += count
 
+    ids_in_scope = collections.Counter()
+
+    def name_id_label(o):
+        name, oid = o._name, o._id
+        if name == oid:
+            return 'name-equals-id'
+        if isinstance(name, str) and isinstance(oid, str) and name and oid:
+            if _normal(name) == _normal(oid) or _squash(name) == _squash(oid):
+                return 'name-equals-id-only-after-normalisation'
+            if name in oid or oid in name:
+                return 'name-differs-from-id-but-one-contains-the-other'
+            if ids_in_scope[name]:
+                return 'name-differs-from-id-but-is-the-id-of-another-object'
+        return 'name-differs-from-id'
+
     def do_prop(p):
         n = 1 if missing(p._name) else 0
         note(p, 'object_required_attributes', n > 0, 'property-name-missing' if n else 'property-name-present', n)
-        note(p, 'object_name_readable', p._name == p._id, 'name-equals-id' if p._name == p._id else 'name-differs-from-id')
+        note(p, 'object_name_readable', p._name == p._id, name_id_label(p))
         v, lab = dep_eval(p)
         note(p, 'property_dependency_check', v, lab)
         cons = values_consistent(p._dtype, p._values)
@@ -287,7 +339,7 @@ def expect(root):
         note(s, 'object_required_attributes', bool(miss), 'section-missing-' + '+'.join(miss) if miss
              else 'section-name-type-present', len(miss))
         note(s, 'section_type_must_be_defined', s.type == 'n.s.', 'type-n.s.' if s.type == 'n.s.' else 'type-%r' % (s.type,))
-        note(s, 'object_name_readable', s._name == s._id, 'name-equals-id' if s._name == s._id else 'name-differs-from-id')
+        note(s, 'object_name_readable', s._name == s._id, name_id_label(s))
         cu = card_unmet(s._sec_cardinality, len(_secs(s)))
         note(s, 'section_sections_cardinality', cu, card_label(s._sec_cardinality, len(_secs(s)))
              if cu is not None else 'malformed-cardinality')
@@ -307,6 +359,9 @@ def expect(root):
         all_secs.append(s)
         all_props.extend(_props(s))
         stack.extend(reversed(_secs(s)))
+    for o in [root] + all_secs + all_props:
+        if isinstance(getattr(o, '_id', None), str):
+            ids_in_scope[o._id] += 1
     for s in all_secs:
         do_sec(s)
     for p in all_props:
@@ -464,6 +519,74 @@ def group_situation(ex, family, members, flagged, got_group):
     return ' [%s]' % '+'.join(obs) if obs else ''
 
 
+def _text(x):
+    return x if isinstance(x, str) else '' if x is None else str(x)
+
+
+def _normal(x):
+    """Text after the normalisations an ad-hoc key might apply (Unicode composition, letter case, outer blanks)."""
+    return unicodedata.normalize('NFKC', x).casefold().strip() if isinstance(x, str) else x
+
+
+def _squash(*parts):
+    return ''.join(ch for ch in ''.join(_text(p) for p in parts) if ch.isalnum())
+
+
+def _concat_coincides(a, b):
+    """Two different tuples of texts whose concatenation with one and the same separator is one string."""
+    if a == b or len(a) != len(b):
+        return False
+    ta, tb = [_text(x) for x in a], [_text(x) for x in b]
+    return any(sep.join(ta) == sep.join(tb) for sep in SEPS) or _squash(*ta) == _squash(*tb)
+
+
+def near_miss(o, kind, root):
+    """An object is reported as a duplicate although it shares the key of the rule with nobody: a stable label of the
+    *different* key in scope that comes closest (what a wrongly built key would have merged), or None."""
+    def first(cands, tests):
+        for label, test in tests:
+            for c in cands:
+                r = h.call(test, c)
+                if r[0] == 'ret' and r[1]:
+                    return label
+        return None
+
+    par = getattr(o, '_parent', None)
+    if kind == 'section_unique_name_type' and par is not None:
+        key = (o._name, o.type)
+        return first([s for s in _secs(par) if s is not o and (s._name, s.type) != key], [
+            ('sibling-with-name-and-type-swapped', lambda s: (s.type, s._name) == key),
+            ('sibling-equal-only-after-str()', lambda s: (str(s._name), str(s.type)) == (str(key[0]), str(key[1]))),
+            ('sibling-equal-only-after-case/blank/unicode-normalisation',
+             lambda s: (_normal(s._name), _normal(s.type)) == (_normal(key[0]), _normal(key[1]))),
+            ('sibling-with-different-name-and-type-whose-concatenation-coincides',
+             lambda s: _concat_coincides((s._name, s.type), key)),
+            ('sibling-with-same-name-other-type', lambda s: s._name == key[0]),
+            ('sibling-with-same-type-other-name', lambda s: s.type == key[1]),
+        ])
+    if kind == 'property_unique_name' and par is not None and is_sec(par):
+        name = o._name
+        return first([p for p in _props(par) if p is not o and p._name != name], [
+            ('sibling-equal-only-after-str()', lambda p: str(p._name) == str(name)),
+            ('sibling-equal-only-after-case/blank/unicode-normalisation', lambda p: _normal(p._name) == _normal(name)),
+            ('sibling-equal-only-without-separator-characters', lambda p: _squash(p._name) == _squash(name)),
+            ('sibling-name-is-part-of-the-name', lambda p: _text(p._name) != '' and
+             (_text(p._name) in _text(name) or _text(name) in _text(p._name))),
+        ]) or first([s for s in _secs(par)], [('sub-section-of-that-name', lambda s: s._name == name)])
+    if kind in ID_KINDS:
+        secs, props = h.walk(root)
+        oid = o._id
+        return first([x for x in [root] + secs + props if x is not o and x._id != oid], [
+            ('object-with-id-equal-only-after-str()', lambda x: str(x._id) == str(oid)),
+            ('object-with-id-equal-only-after-case/blank/unicode-normalisation', lambda x: _normal(x._id) == _normal(oid)),
+            ('object-with-id-equal-only-without-separator-characters', lambda x: _squash(x._id) == _squash(oid)),
+            ('object-whose-id-is-part-of-the-id', lambda x: _text(x._id) != '' and
+             (_text(x._id) in _text(oid) or _text(oid) in _text(x._id))),
+            ('object-whose-name-is-the-id', lambda x: getattr(x, '_name', None) == oid),
+        ])
+    return None
+
+
 def check(col, root, how, case_label):
     """Run one validation and compare with the evaluator; returns the set of expected kinds (for class keys)."""
     ex = expect(root)
@@ -588,11 +711,14 @@ def check(col, root, how, case_label):
     for k, objs in got_group.items():
         for o in objs:
             if id(o) not in claimed[k]:
+                near = near_miss(o, k, root)
                 col.fail(check=NAME + '/no-false-positive',
-                         cls={'clause': 'no-false-positive', 'feature': '%s: object-shares-nothing' % k},
+                         cls={'clause': 'no-false-positive',
+                              'feature': '%s: object-shares-nothing%s' % (k, ' [%s]' % near if near else '')},
                          witness=wit(at=obj_label(o)),
-                         detail='%s reported on %s which shares its %s with no object in scope'
-                                % (k, obj_label(o), 'id' if k in ID_KINDS else 'name'))
+                         detail='%s reported on %s which shares its %s with no object in scope%s'
+                                % (k, obj_label(o), 'id' if k in ID_KINDS else 'name/type' if is_sec(o) else 'name',
+                                   '; closest different key: ' + near if near else ''))
     return exp_kinds
 
 
@@ -1562,6 +1688,9 @@ def gen_sources(tier):
     yield 'cardinality', lambda: gen_cardinality(tier, limit=2 if tier == 'quick' else 3)
     yield 'duplicate-names', lambda: gen_dup_names(tier)
     yield 'values', lambda: (x for x in gen_values(tier) if x[0] != ('api-pool',))
+    yield 'near-collisions', lambda: (x for k, x in enumerate(g for gen in (gen_sep_sections, gen_sep_properties,
+                                                                            gen_sep_ids) for g in gen('quick'))
+                                      if tier != 'quick' or k % 24 == 0)
 
 
 def gen_replicated(tier):
@@ -1658,6 +1787,299 @@ def gen_mixed_structural(tier, seed):
             yield (labels, tuple(done)), doc
 
 
+# -- different keys that an ad-hoc key would merge -------------------------------------------------------------
+#
+# Every rule that compares or groups objects (unique name/type, unique Property names, unique ids, name equal to id,
+# dependency lookup, dependency value lookup) is defined on the exact texts / tuples of texts.  The documents below hold
+# DIFFERENT keys that coincide as soon as a key is built or compared in any other way:
+#   * separators: (A+sep+B, C) next to (A, B+sep+C) - the concatenations with `sep` are one string - for every
+#     character / format fragment a joined key could be built with, parts may be empty (a missing name / type);
+#   * single texts: A, B, A+sep+B, B+sep+A, A+sep, sep+A, sep, A+sep+sep+B next to each other (part of / prefix of /
+#     equal without separators / path syntax 'section:property', 'section/section');
+#   * normalisation: texts that differ in letter case, outer blanks, Unicode composition only;
+#   * coercion: None next to the text 'None'; order: (a, b) next to (b, a).
+# The prescribed issues are computed by expect() as for every other document: none for the near-collisions, the usual
+# ones for the real duplicates / missing targets that are mixed in.
+
+SEPS = ['/', ':', '|', ',', ';', ' ', '\n', '-', '.', '#', '%', '(', ')', "'", '"', '',
+        '\t', '_', '\\', '=', '&', '+', '*', '@', '!', '?', '$', '~', '^', '<', '>', '[', ']', '{', '}',
+        '\x00', '\x1f', '\r\n', ', ', "', '", ' (', '::', '->', ' / ', '//', '%s', '%(name)s', '{}', '{0}', '\\n',
+        '\u00a0', '\u2044', '\uff0f']
+SEPS_QUICK_MATRIX = ['/', '', '%s']
+SEP_PARTS = [('setup', 'rig', 'A'), ('a', '', 'c'), ('a', 'b', ''), ('', 'b', 'c')]
+
+COMPOSED, DECOMPOSED = 'r\u00e4g', 'ra\u0308g'
+NEAR_PAIRS = collections.OrderedDict([
+    ('name-differs-in-case-only', (('Rig', 't'), ('rig', 't'))),
+    ('type-differs-in-case-only', (('rig', 'T'), ('rig', 't'))),
+    ('name-differs-in-trailing-blank-only', (('rig ', 't'), ('rig', 't'))),
+    ('name-differs-in-leading-blank-only', ((' rig', 't'), ('rig', 't'))),
+    ('type-differs-in-trailing-blank-only', (('rig', 't '), ('rig', 't'))),
+    ('type-differs-in-trailing-newline-only', (('rig', 't\n'), ('rig', 't'))),
+    ('name-differs-in-unicode-composition-only', ((COMPOSED, 't'), (DECOMPOSED, 't'))),
+    ('type-differs-in-unicode-composition-only', (('rig', COMPOSED), ('rig', DECOMPOSED))),
+    ('name-and-type-swapped', (('a', 'b'), ('b', 'a'))),
+    ('type-None-next-to-text-None', (('rig', None), ('rig', 'None'))),
+    ('type-is-prefix-of-the-other-type', (('rig', 'tt'), ('rig', 't'))),
+    ('name-is-prefix-of-the-other-name', (('rigg', 't'), ('rig', 't'))),
+    ('name-of-one-is-type-of-the-other', (('a', 'x'), ('b', 'a'))),
+])
+NEAR_NAMES = collections.OrderedDict([
+    ('case-only', ('Rig', 'rig', 'RIG')),
+    ('blank-only', ('rig ', 'rig', ' rig', 'rig\n', 'rig\t')),
+    ('unicode-composition-only', (COMPOSED, DECOMPOSED)),
+    ('prefix-and-part', ('rig', 'rigg', 'ri', 'g')),
+    ('text-None', ('None', 'none', 'null', '0', 'False')),
+])
+
+
+def force_sec(parent, name, type_):
+    """A Section below parent with exactly this name and type (API first; private field where the API refuses)."""
+    s = S('tmp-%d' % len(_secs(parent)), 'tmp', parent=parent)
+    if isinstance(name, str) and name:
+        h.call(setattr, s, 'name', name)
+    if s._name != name:
+        s._name = name
+    setattr_q(s, 'type', type_)
+    if s.type != type_:
+        s.type = type_
+    return s
+
+
+def force_prop(parent, name, values=None, **kw):
+    p = P('tmp-%d' % len(_props(parent)), values=values, parent=parent, **kw)
+    if isinstance(name, str) and name:
+        h.call(setattr, p, 'name', name)
+    if p._name != name:
+        p._name = name
+    return p
+
+
+def _rotate(combos, tier, counter):
+    """thorough: every combination; quick: one of them, a different one each time."""
+    if tier != 'quick':
+        return combos
+    counter[0] += 1
+    return [combos[counter[0] % len(combos)]]
+
+
+def sep_texts(sep, a, b):
+    out = []
+    for x in (a, b, a + sep + b, b + sep + a, a + sep, sep + a, sep, a + sep + sep + b):
+        if x != '' and x not in out:
+            out.append(x)
+    return out
+
+
+def _sibling_sections_doc(keys, where, dup):
+    doc = D()
+    if where == 'top':
+        holder = doc
+    else:
+        outer = S('outer', 'o', parent=doc)
+        # the parent carries the name and type of one of its children: no clash, they are not siblings
+        holder = force_sec(outer, keys[0][0] or 'h', keys[0][1] or 'h')
+        P('p', values=[0], parent=holder)
+    S('plain', 't', parent=holder)
+    keys = list(keys) + ([keys[0]] if dup else [])
+    for i, (name, type_) in enumerate(keys):
+        s = force_sec(holder, name, type_)
+        P('p', values=[i], parent=s)
+        S('below', 't', parent=s)
+    S('last', 't', parent=holder)
+    return doc
+
+
+def gen_sep_sections(tier):
+    """Sibling Sections whose (name, type) pairs differ and whose joined texts coincide."""
+    combos = [(w, o, d) for d in (False, True) for w in ('top', 'nested') for o in ('as-listed', 'reversed')]
+    counter = [0]
+    for sep in SEPS:
+        for a, b, c in SEP_PARTS:
+            first, second = (a + sep + b, c), (a, b + sep + c)
+            if first == second:
+                continue
+            for where, order, dup in _rotate(combos, tier, counter):
+                keys = [first, second] if order == 'as-listed' else [second, first]
+                yield ('sections', 'separator %r' % sep, (a, b, c), where, order,
+                       'plus-real-duplicate' if dup else 'all-different'), _sibling_sections_doc(keys, where, dup)
+    for label, pair in NEAR_PAIRS.items():
+        for where, order, dup in _rotate(combos, tier, counter) + ([combos[0]] if tier == 'quick' else []):
+            keys = list(pair) if order == 'as-listed' else list(reversed(pair))
+            yield ('sections', label, where, order,
+                   'plus-real-duplicate' if dup else 'all-different'), _sibling_sections_doc(keys, where, dup)
+
+
+def _names_doc(names, mode, dup, sep):
+    """One Section with Properties of these names (mode: which of them exist) and one dependent Property per name;
+    a sub-Section 'setup' with a Property 'rig' (the texts 'setup:rig' / 'setup/rig' read as paths to it)."""
+    doc = D()
+    top = S('top', parent=doc)
+    sec = top if len(names) % 2 else S('inner', parent=top)
+    if mode == 'all-exist':
+        present = list(names)
+    elif mode == 'parts-exist':
+        present = names[:2]
+    else:
+        present = names[2:4]
+    for k, name in enumerate(present):
+        force_prop(sec, name, ['x', 'y' + sep + 'z'])
+    if dup and present:
+        force_prop(sec, present[-1], ['x'])
+    for k, name in enumerate(names):
+        d = P('dependent%d' % k, values=[k], parent=sec)
+        setattr_q(d, 'dependency', name)
+        setattr_q(d, 'dependency_value', 'x')
+    if present:
+        d = P('dependent-value', values=[1], parent=sec)
+        setattr_q(d, 'dependency', present[0])
+        setattr_q(d, 'dependency_value', 'y')                 # part of the second value only
+    sub = S(names[0], parent=sec)                              # a Section of that name is no clash
+    P(names[1] if len(names) > 1 else 'rig', values=['x'], parent=sub)
+    if len(names) > 2:
+        S(names[2], 'u', parent=sec)
+    return doc
+
+
+def gen_sep_properties(tier):
+    """Sibling Properties with different names that coincide under joining / splitting / normalising; dependencies
+    that name exactly one of them, a part of one, a joined text of two, or a path to a Property one level down."""
+    combos = [(m, d) for m in ('all-exist', 'parts-exist', 'joined-exist') for d in (False, True)]
+    counter = [0]
+    for sep in SEPS:
+        names = sep_texts(sep, 'setup', 'rig')
+        for mode, dup in (combos if tier != 'quick' else [combos[0]] + _rotate(combos[1:], tier, counter)):
+            yield ('properties', 'separator %r' % sep, mode,
+                   'plus-real-duplicate' if dup else 'all-different'), _names_doc(names, mode, dup, sep)
+    for label, names in NEAR_NAMES.items():
+        for mode, dup in (combos if tier != 'quick' else [combos[0]] + _rotate(combos[1:], tier, counter)):
+            yield ('properties', label, mode,
+                   'plus-real-duplicate' if dup else 'all-different'), _names_doc(list(names), mode, dup, ' ')
+
+
+def gen_sep_dependency_values(tier):
+    """dependency_value against target values that contain it only as a part / only when joined."""
+    for sep in SEPS:
+        a, b = 'on', 'off'
+        doc = D()
+        top = S('top', parent=doc)
+        P('two', values=[a, b], parent=top)
+        P('joined', values=[a + sep + b], parent=top)
+        P('both', values=[a + sep + b, a, sep + b], parent=top)
+        k = 0
+        for target, dvs in (('two', (a + sep + b, a, b, a + sep, sep + b, sep, b + sep + a)),
+                            ('joined', (a, b, a + sep + b, a + sep, sep, a + sep + sep + b)),
+                            ('both', (a, b, a + sep + b, sep + b, sep))):
+            for dv in dvs:
+                if dv == '':
+                    continue                                   # '' may mean "no dependency value": statement silent
+                k += 1
+                d = P('d%d' % k, values=[k], parent=top)
+                setattr_q(d, 'dependency', target)
+                setattr_q(d, 'dependency_value', dv)
+        yield ('dependency-values', 'separator %r' % sep), doc
+
+
+def gen_sep_ids(tier):
+    """Ids (private field: the API only stores canonical UUIDs) that differ and coincide when joined / split /
+    normalised; every object is named like the id of ANOTHER object; one object is named like its own id."""
+    counter = [0]
+    for sep in SEPS:
+        ids = sep_texts(sep, 'id1', 'id2')
+        for dup in _rotate([False, True], tier, counter):
+            doc = D()
+            tops = [S('t0', parent=doc), S('t1', 'u', parent=doc)]
+            objs = []
+            for k, oid in enumerate(ids):
+                par = tops[k % 2]
+                o = S('s%d' % k, parent=par) if k % 3 == 0 else P('p%d' % k, values=[k], parent=par)
+                o._id = oid
+                objs.append(o)
+            for k, o in enumerate(objs):
+                o._name = ids[(k + 1) % len(ids)] if len(ids) > 1 else 'x'
+            own = P('own', values=[1], parent=tops[0])
+            own._id = 'own' + sep + 'id'
+            own._name = own._id
+            if dup:
+                shared = S('shared', parent=tops[1])
+                shared._id = ids[-1]
+                P('shared', values=[1], parent=shared)._id = ids[0]
+            yield ('ids', 'separator %r' % sep, 'plus-real-duplicate' if dup else 'all-different'), doc
+    # canonical ids: names that are almost the id
+    doc = D()
+    top = S('top', parent=doc)
+    other = S('other', parent=doc)
+    # (other spellings of the same UUID - upper case, without dashes, in braces, as urn - are left out: whether such
+    #  a name "equals" the id is not settled by the statement)
+    variants = [lambda i: i[:8], lambda i: i[9:], lambda i: i + ' ', lambda i: ' ' + i, lambda i: i + '/',
+                lambda i: i + ':' + i, lambda i: i[::-1], lambda i: other._id, lambda i: doc._id, lambda i: i]
+    for k, var in enumerate(variants):
+        for o in (S('s%d' % k, parent=top), P('p%d' % k, values=[k], parent=top)):
+            o._name = var(o._id)
+    yield ('ids', 'name-almost-the-id'), doc
+    # canonical ids that share all but one character / differ in case only
+    doc = D()
+    top = S('top', parent=doc)
+    base = top._id
+    last = 'a' if base[-1] != 'a' else 'b'
+    for k, oid in enumerate((base[:-1] + last, base[:18], base + base[:4], base + ' ', base[::-1])):
+        o = S('s%d' % k, parent=top) if k % 2 else P('p%d' % k, values=[k], parent=top)
+        o._id = oid
+    yield ('ids', 'ids-almost-equal'), doc
+
+
+def gen_sep_values(tier):
+    """Text values that contain the separators: consistent with every text dtype, counted as given."""
+    doc = D()
+    for chunk in range(0, len(SEPS), 8):
+        sec = S('values%d' % chunk, parent=doc)
+        for k, sep in enumerate(SEPS[chunk:chunk + 8]):
+            vals = ['on' + sep + 'off', sep if sep else 'x', 'off']
+            for dtype in ('string', 'text', None):
+                p = P('p%d-%s' % (k, dtype), parent=sec, dtype=dtype)
+                p._values = list(vals)
+                p._dtype = dtype
+                setattr_q(p, 'val_cardinality', (3, 3) if k % 2 else (4, None))
+    yield ('values', 'all-separators'), doc
+
+
+def _sep_base(sep):
+    """The document of gen_violation_matrix with every name / type replaced by near-collisions for `sep`."""
+    doc = D()
+    objs = collections.OrderedDict()
+    for i, (name, type_) in enumerate((('one' + sep + 'x', 'y'), ('one', 'x' + sep + 'y'))):
+        top = force_sec(doc, name, type_)
+        objs['top%d' % i] = top
+        for j, pname in enumerate(('a' + sep + 'b', 'a', 'b')):
+            objs['top%d:p%d' % (i, j)] = force_prop(top, pname, [1, 2] if j == 0 else ['s' + sep + 's'])
+        for j, (sname, stype) in enumerate((('s' + sep + 'x', 'y'), ('s', 'x' + sep + 'y'))):
+            sub = force_sec(top, sname, stype)
+            objs['top%d/sub%d' % (i, j)] = sub
+            for m, pname in enumerate(('c' + sep + 'd', 'c' + sep, 'd')):
+                objs['top%d/sub%d:p%d' % (i, j, m)] = force_prop(sub, pname, [1.5, 2.5] if m == 0 else ['t'])
+    return doc, objs
+
+
+def gen_sep_matrix(tier):
+    """Every violation of the rule table at every kind of place of a document made of near-collisions only."""
+    paths = ['top0', 'top0:p0', 'top0/sub0', 'top0/sub0:p0', 'top1/sub1', 'top1/sub1:p2']
+    for sep in (SEPS_QUICK_MATRIX if tier == 'quick' else SEPS):
+        yield ('matrix', 'separator %r' % sep, 'none', 'none'), _sep_base(sep)[0]
+        for path in paths:
+            for vname in (PROP_VIOLATIONS if ':' in path else SEC_VIOLATIONS):
+                doc, objs = _sep_base(sep)
+                o = objs[path]
+                if violations_for(o)[vname](o):
+                    yield ('matrix', 'separator %r' % sep, path, vname), doc
+
+
+def gen_near_collisions(tier):
+    for gen in (gen_sep_sections, gen_sep_properties, gen_sep_dependency_values, gen_sep_ids, gen_sep_values,
+                gen_sep_matrix):
+        for item in gen(tier):
+            yield item
+
+
 # ---------------------------------------------------------------------------------------------
 
 class ClassCapped(h.Collector):
@@ -1695,7 +2117,10 @@ def run_rules(tier, seed):
              'relative to the linking Section x every violation of the rule table x moment of the violation), validated '
              'before resolving, resolved, after clean() and resolved again; every rule matrix replicated in 9 ways '
              '(equal content at several places, same names with other content, copies made through links); deep (9 '
-             'levels) and wide (12 siblings) documents; random mixtures replicated / linked afterwards; two cases are '
+             'levels) and wide (12 siblings) documents; random mixtures replicated / linked afterwards; near-collisions: '
+             'different (name, type) pairs / Property names / ids / dependencies / dependency values whose texts coincide '
+             'when joined with one of 53 separators, split, stripped, case-folded, Unicode-normalised, converted with '
+             'str() or swapped, with and without a real duplicate, plus the rule table on documents made of them; two cases are '
              'distinct when (generator, parameters incl. state, kind of validated root, attached?, set of expected '
              'issue kinds) differ',
         exhaustive=False)
@@ -1719,6 +2144,8 @@ def run_rules(tier, seed):
         run_targets(col, targets_of(doc), 'values', params)
     for params, doc in gen_mixed(tier, seed):
         run_targets(col, targets_of(doc), 'mixed', params)
+    for params, doc in gen_near_collisions(tier):
+        run_targets(col, targets_of(doc, standalone=params[0] in ('sections', 'properties')), 'near-collisions', params)
     run_links(col, tier, seed)
     for params, doc in gen_replicated(tier):
         run_targets(col, targets_of(doc, standalone=False), 'replicated', params)
